@@ -370,7 +370,7 @@ func TestVP_C06_payload_hash(t *testing.T) {
 	c := kit.New(t, "C06", "rapid: a generated transaction and one edited copy; a payload edit (version, asset, any input/deposit/mint field, any output/key/mask/script/withdrawal field, references, extra, element added/removed/swapped) must change PayloadMarshal and PayloadHash; an authorization edit (signature maps, aggregate signature and signer set) must change neither but must change Marshal; non-trivial = every edit; distinct by (payload hash, edit)")
 	c.Require(vpC06PayloadEdits...)
 	c.Require(vpC06AuthEdits...)
-	kit.SetChecks(kit.N(4000, 200000))
+	kit.SetChecks(kit.N(4000, 150000))
 	all := append(append([]string{}, vpC06PayloadEdits...), vpC06AuthEdits...)
 	isAuth := map[string]bool{}
 	for _, a := range vpC06AuthEdits {
@@ -607,7 +607,7 @@ func TestVP_C06_injectivity(t *testing.T) {
 	c := kit.New(t, "C06", "rapid: (a) near-twin pairs that keep the concatenated field contents but move bytes across a field boundary (asset key|transaction, address|tag, genesis|deposit marker, last key|mask, last reference|extra, script|withdrawal, extra tail, last input|first output, genesis|group, amount tail); (b) all pairs among 8 transactions drawn from a tiny alphabet; payload encodings are equal exactly when the payload structures are equal; non-trivial = every pair with different structures; distinct by pair hash")
 	c.Require(vpC06Twins...)
 	c.Require("tiny-pair-equal", "tiny-pair-different")
-	kit.SetChecks(kit.N(2500, 120000))
+	kit.SetChecks(kit.N(2500, 80000))
 	rapid.Check(t, func(t *rapid.T) {
 		if rapid.IntRange(0, 2).Draw(t, "family") == 0 {
 			txs := make([]*SignedTransaction, 8)
